@@ -14,7 +14,7 @@ RULE = ('case = one random portfolio over {SimpleContract, Contract (spread, tim
         'gives the same objective. Non-trivial: both solved and >=2 asset classes carry flow; distinct = spec hashes.')
 ASSUMPTIONS = ['discounting to the END of each step (the convention the suite pins)', 'holding cost is charged on the dispatch-driven part of the level '
                '(documented: constant contribution of inflow not part of the value; start-level constant likewise)',
-               'transports are generated with min_cap >= 0 (documented direction node 1 -> node 2)',
+               'transports against their nominal direction (capacities <= 0) pay their costs on the absolute flow and are generated with efficiency 1; two-directional transports only without costs (EAO rejects the others)',
                'storage block_size / MIP options / coarse frequency / periodicity are outside C02 (covered by C05/C13)',
                'value tolerance 1e-5 relative, feasibility 1e-6 scaled']
 MIN_NONVACUOUS = {'quick': {'ref.value_equal': 225, 'ref.eao_point_feasible_in_reference': 225, 'ref.feasibility_verdicts_agree': 300},
